@@ -536,3 +536,167 @@ Example global_clip_keeps_alpha :
   im_px (global_clip (mk_ropts None (Some true) None) (mk_image M_RGBA T_none [(0, 0, 0, 76); (1, 2, 3, 9)]) [false; true])
   = [(0, 0, 0, 76); (255, 255, 255, 0)].
 Proof. vm_compute. reflexivity. Qed.
+
+(* ------------------------------------------------------------------ WMS level: pruning in WMSServer.map *)
+
+Definition w_layers_of (req : list wlayer) : list (Z * list src) :=
+  flat_map w_map_layers (filter w_renders req).
+Definition req_keys (req : list wlayer) : list Z := map fst (w_layers_of req).
+
+Lemma od_set_fresh : forall d k v, ~ In k (map fst d) -> od_set d k v = d ++ [(k, v)].
+Proof.
+  induction d as [|[k' v'] d IH]; intros k v H; simpl; [reflexivity|].
+  simpl in H. destruct (k' =? k) eqn:E.
+  - apply Z.eqb_eq in E. exfalso. apply H. left. exact E.
+  - rewrite IH; [reflexivity|]. intro X. apply H. right. exact X.
+Qed.
+
+Lemma od_update_fresh : forall kvs d, NoDup (map fst d ++ map fst kvs) -> od_update d kvs = d ++ kvs.
+Proof.
+  unfold od_update. induction kvs as [|[k v] kvs IH]; intros d H; simpl.
+  - rewrite app_nil_r. reflexivity.
+  - cbn [map fst] in H. pose proof (NoDup_remove_2 _ _ _ H) as NI.
+    rewrite od_set_fresh.
+    + rewrite IH.
+      * rewrite <- app_assoc. reflexivity.
+      * rewrite map_app. cbn [map fst]. rewrite <- app_assoc. exact H.
+    + intro X. apply NI. apply in_or_app. left. exact X.
+Qed.
+
+Lemma w_layers_of_cons : forall w req,
+  w_layers_of (w :: req) = (if w_renders w then w_map_layers w else []) ++ w_layers_of req.
+Proof. intros. unfold w_layers_of. simpl. destruct (w_renders w); reflexivity. Qed.
+
+Lemma NoDup_app_r : forall {A} (a b : list A), NoDup (a ++ b) -> NoDup b.
+Proof. intros A a. induction a; simpl; intros b H; [exact H|]. inversion H; subst. auto. Qed.
+
+Lemma NoDup_app_l : forall {A} (a b : list A), NoDup (a ++ b) -> NoDup a.
+Proof.
+  intros A a. induction a as [|x a IH]; simpl; intros b H; [constructor|]. inversion H; subst. constructor.
+  - intro X. apply H2. apply in_or_app. left. exact X.
+  - eapply IH. eassumption.
+Qed.
+
+(* without pruning (distinct keys) the selection is the concatenation of the map layers of the rendering layers *)
+Lemma select_false_spec : forall req acc,
+  NoDup (map fst acc ++ req_keys req) ->
+  select_layers false req acc = acc ++ w_layers_of req.
+Proof.
+  induction req as [|w req IH]; intros acc H; simpl.
+  - unfold w_layers_of. simpl. rewrite app_nil_r. reflexivity.
+  - unfold req_keys in H. rewrite w_layers_of_cons in *. destruct (w_renders w) eqn:R.
+    + cbn [andb]. rewrite map_app in H. rewrite od_update_fresh.
+      * rewrite IH.
+        -- rewrite <- app_assoc. reflexivity.
+        -- rewrite map_app. rewrite <- app_assoc. exact H.
+      * rewrite app_assoc in H. eapply NoDup_app_l. exact H.
+    + simpl in H. apply IH. exact H.
+Qed.
+
+Lemma w_layers_of_app : forall a b, w_layers_of (a ++ b) = w_layers_of a ++ w_layers_of b.
+Proof. intros. unfold w_layers_of. rewrite filter_app, flat_map_app. reflexivity. Qed.
+
+(* with pruning: either nothing was pruned, or the selection restarts at the last rendering opaque layer *)
+Lemma select_true_spec : forall req acc,
+  NoDup (map fst acc ++ req_keys req) ->
+  select_layers true req acc = acc ++ w_layers_of req \/
+  exists pre w post, req = pre ++ w :: post /\ w_renders w = true /\ w_is_opaque w = true /\
+                     select_layers true req acc = w_layers_of (w :: post).
+Proof.
+  induction req as [|w req IH]; intros acc H.
+  - left. simpl. unfold w_layers_of. simpl. rewrite app_nil_r. reflexivity.
+  - unfold req_keys in H. rewrite w_layers_of_cons in H. simpl. destruct (w_renders w) eqn:R.
+    + rewrite map_app in H. cbn [andb]. destruct (w_is_opaque w) eqn:O.
+      * assert (H' : NoDup (map fst (w_map_layers w) ++ req_keys req)) by (eapply NoDup_app_r; exact H).
+        rewrite (od_update_fresh (w_map_layers w) []); [|simpl; eapply NoDup_app_l; exact H'].
+        simpl. right. destruct (IH (w_map_layers w) H') as [E | (pre & w' & post & E1 & E2 & E3 & E4)].
+        -- exists [], w, req. repeat split; auto. rewrite E. rewrite w_layers_of_cons, R. reflexivity.
+        -- exists (w :: pre), w', post. subst req. repeat split; auto.
+      * rewrite od_update_fresh; [|rewrite app_assoc in H; eapply NoDup_app_l; exact H].
+        assert (H' : NoDup (map fst (acc ++ w_map_layers w) ++ req_keys req))
+          by (rewrite map_app, <- app_assoc; exact H).
+        destruct (IH (acc ++ w_map_layers w) H') as [E | (pre & w' & post & E1 & E2 & E3 & E4)].
+        -- left. rewrite E. rewrite w_layers_of_cons, R, <- app_assoc. reflexivity.
+        -- right. exists (w :: pre), w', post. subst req. repeat split; auto.
+    + simpl in H. destruct (IH acc H) as [E | (pre & w' & post & E1 & E2 & E3 & E4)].
+      * left. rewrite E. rewrite w_layers_of_cons, R. reflexivity.
+      * right. exists (w :: pre), w', post. subst req. repeat split; auto.
+Qed.
+
+(* an opaque WMS layer has an opaque source among the sources it renders *)
+Lemma existsb_src : forall srcs, existsb src_is_opaque srcs = true ->
+  exists s, In s srcs /\ src_is_opaque s = true.
+Proof. intros srcs H. apply existsb_exists in H. exact H. Qed.
+
+Lemma w_opaque_src : forall w, w_is_opaque w = true ->
+  exists s, In s (flat_map snd (w_map_layers w)) /\ src_is_opaque s = true.
+Proof.
+  fix IH 1. intros [n r srcs | n r [[n' srcs]|] ch] H.
+  - simpl in H. destruct (existsb_src srcs H) as (s & I & O). exists s. split; [|exact O].
+    simpl. destruct srcs; [destruct I|]. simpl. rewrite app_nil_r. exact I.
+  - simpl in H. destruct (existsb_src srcs H) as (s & I & O). exists s. split; [|exact O].
+    simpl. destruct srcs; [destruct I|]. simpl. rewrite app_nil_r. exact I.
+  - simpl in H. simpl. revert H. induction ch as [|c ch IHch]; intro H; [discriminate|].
+    simpl in H. apply orb_prop in H. destruct H as [H|H].
+    + destruct (IH c H) as (s & I & O). exists s. split; [|exact O].
+      simpl. rewrite flat_map_app. apply in_or_app. left. exact I.
+    + destruct (IHch H) as (s & I & O). exists s. split; [|exact O].
+      simpl. rewrite flat_map_app. apply in_or_app. right. exact I.
+Qed.
+
+Lemma rendered_app : forall fetch a b, rendered fetch (a ++ b) = rendered fetch a ++ rendered fetch b.
+Proof.
+  intros fetch a b. induction a as [|s a IH]; simpl; [reflexivity|].
+  destruct (src_blank s); [exact IH|]. destruct (fetch s); [simpl; rewrite IH; reflexivity | exact IH].
+Qed.
+
+Lemma rendered_sized : forall fetch n l,
+  (forall s x, fetch s = Some x -> sized n x) -> Forall (sized n) (rendered fetch l).
+Proof.
+  intros fetch n l H. induction l as [|s l IH]; simpl; [constructor|].
+  destruct (src_blank s); [exact IH|]. destruct (fetch s) eqn:E; [constructor; eauto | exact IH].
+Qed.
+
+(* prune_below_opaque_sound at the WMS level: for every request (layer list of any length, groups nested to any
+   depth) whose selected layer names are distinct, WMSServer.map with the is_opaque optimisation returns the
+   same picture as without it, provided every source that is_opaque accepts delivers opaque pixels
+   (upstream assumption) and all fetched images have the requested size.  (request combination switched off) *)
+Lemma wms_prune : forall fetch n o req,
+  NoDup (req_keys req) ->
+  (forall s l, fetch s = Some l -> sized n l) ->
+  (forall s, src_is_opaque s = true -> exists l, fetch s = Some l /\ opaque_layer l) ->
+  view (result_image (wms_map true false fetch n o req)) =
+  view (result_image (wms_map false false fetch n o req)).
+Proof.
+  intros fetch n o req ND SZ OP. unfold wms_map, render_layers.
+  rewrite (select_false_spec req []) by exact ND.
+  destruct (select_true_spec req [] ND) as [E | (pre & w & post & E1 & R & O & E)]; rewrite E; [reflexivity|].
+  cbn [app]. subst req. rewrite w_layers_of_app. rewrite flat_map_app.
+  rewrite w_layers_of_cons, R, flat_map_app.
+  destruct (w_opaque_src w O) as (s & I & SO).
+  destruct (in_split _ _ I) as (A & B & EQ). rewrite EQ.
+  destruct (OP s SO) as (top & F & TO).
+  destruct (src_is_opaque_facts s SO) as (_ & _ & _ & _ & NB & _).
+  set (rest := flat_map snd (w_layers_of post)).
+  set (X := flat_map snd (w_layers_of pre)).
+  assert (RS : rendered fetch ((A ++ s :: B) ++ rest) =
+               rendered fetch A ++ top :: rendered fetch (B ++ rest)).
+  { rewrite <- app_assoc. rewrite rendered_app. simpl. rewrite NB, F. reflexivity. }
+  rewrite (rendered_app fetch X ((A ++ s :: B) ++ rest)). rewrite !RS.
+  rewrite (app_assoc (rendered fetch X) (rendered fetch A)).
+  rewrite (merge_prune n o (rendered fetch X ++ rendered fetch A) top (rendered fetch (B ++ rest)) None TO (SZ s top F)).
+  - rewrite (merge_prune n o (rendered fetch A) top (rendered fetch (B ++ rest)) None TO (SZ s top F)); [reflexivity|].
+    apply rendered_sized. exact SZ.
+  - apply Forall_app. split; apply rendered_sized; exact SZ.
+Qed.
+
+(* non-vacuity: a request in which pruning really drops a layer *)
+Definition ex_w_base : wlayer := WLeaf 1 true [mk_src [1] true true (Some true) None 0 1 [1] 1 1 None None 0 1].
+Definition ex_w_top : wlayer :=
+  WGroup 2 true None [WLeaf 3 true [mk_src [2] true true (Some false) None 0 1 [2] 1 1 None None 0 1];
+                      WLeaf 4 true [mk_src [3] true true (Some true) (Some (1, -1)) 0 2 [3] 1 1 None None 0 1]].
+Example ex_wms_prune_nontrivial :
+  NoDup (req_keys [ex_w_base; ex_w_top]) /\
+  flat_map s_ids (render_layers true [ex_w_base; ex_w_top]) = [2; 3] /\
+  flat_map s_ids (render_layers false [ex_w_base; ex_w_top]) = [1; 2; 3].
+Proof. split; [|split; vm_compute; reflexivity]. vm_compute. repeat constructor; simpl; intuition discriminate. Qed.
